@@ -1724,6 +1724,184 @@ def reader_dispatch(repo, rel, func):
     return disp
 
 
+FD = "dclab/rtdc_dataset/fmt_hdf5/feat_defect.py"
+
+
+def _log_reader_only_decodes(ctx, repo):
+    """write_text stores the encoded line and nothing else; the log reader
+    may undo exactly that: every value it returns is the stored element or
+    `<element>.decode(codec)` – no stripping, slicing or replacing."""
+    f = repo.func(LG, "H5Logs.__getitem__")
+    rets = [n for n in walk(f) if isinstance(n, ast.Return)]
+    if len(rets) != 1 or not isinstance(rets[0].value, ast.Name):
+        raise AnalysisError("H5Logs.__getitem__: return form")
+    name = rets[0].value.id
+    defs = [n for n in walk(f) if isinstance(n, ast.Assign)
+            and any(isinstance(t, ast.Name) and t.id == name
+                    for t in n.targets)]
+    if not defs:
+        raise AnalysisError("H5Logs.__getitem__: log value lost")
+
+    def plain_elt(e, var):
+        """var | var.decode(..) | conditional of the two"""
+        if isinstance(e, ast.Name) and e.id == var:
+            return True
+        if isinstance(e, ast.Call) and last_attr(e) == "decode" \
+                and isinstance(e.func, ast.Attribute) \
+                and isinstance(e.func.value, ast.Name) \
+                and e.func.value.id == var:
+            return True
+        if isinstance(e, ast.IfExp):
+            return plain_elt(e.body, var) and plain_elt(e.orelse, var)
+        return False
+    for k, d in enumerate(defs):
+        v = d.value
+        if isinstance(v, ast.Call) and call_name(v) in ("list", "tuple") \
+                and len(v.args) == 1 and isinstance(
+                v.args[0], (ast.ListComp, ast.GeneratorExp)):
+            v = v.args[0]
+        if isinstance(v, ast.Call) and call_name(v) in ("list", "tuple") \
+                and len(v.args) == 1 and not any(
+                    isinstance(c, ast.Call) and c is not v
+                    and last_attr(c) not in ("keys",)
+                    for c in ast.walk(v.args[0])):
+            ok, why = True, "the stored lines are taken as they are"
+        elif isinstance(v, (ast.ListComp, ast.GeneratorExp)) \
+                and len(v.generators) == 1 and not v.generators[0].ifs \
+                and isinstance(v.generators[0].target, ast.Name):
+            var = v.generators[0].target.id
+            ok = plain_elt(v.elt, var)
+            touches = any(isinstance(c, ast.Call) and last_attr(c) == "decode"
+                          for c in ast.walk(v.elt))
+            if not ok and not touches:
+                raise AnalysisError(f"H5Logs.__getitem__: "
+                                    f"`{short(v, 50)}` not recognised")
+            why = ("log lines are only decoded" if ok else
+                   f"log lines are returned as `{short(v.elt, 40)}`: the "
+                   f"reader changes the text beyond decoding what "
+                   f"write_text encoded (e.g. trailing whitespace is lost)")
+        else:
+            raise AnalysisError(f"H5Logs.__getitem__: definition "
+                                f"`{short(d, 50)}` not recognised")
+        ctx.ob("R1.5", ok, why, node=d,
+               key=f"{LG}::H5Logs.__getitem__::lines returned as stored "
+                   f"[{k}]")
+
+
+def _chain_select(e, env, func, depth=0):
+    """evaluate a pure string / list expression on a concrete version chain
+    (names from `env`, single-assignment locals of `func` followed)"""
+    if depth > 12:
+        raise AnalysisError("version chain: expression too deep")
+    ev = lambda x: _chain_select(x, env, func, depth + 1)  # noqa: E731
+    if isinstance(e, ast.Constant):
+        return e.value
+    if isinstance(e, ast.Name):
+        if e.id in env:
+            return env[e.id]
+        defs = [n for n in walk(func) if isinstance(n, ast.Assign)
+                and any(isinstance(t, ast.Name) and t.id == e.id
+                        for t in n.targets)]
+        if len(defs) != 1:
+            raise AnalysisError(f"version chain: `{e.id}` has "
+                                f"{len(defs)} definitions")
+        return ev(defs[0].value)
+    if isinstance(e, ast.UnaryOp) and isinstance(e.op, ast.USub):
+        return -ev(e.operand)
+    if isinstance(e, ast.Subscript):
+        seq = ev(e.value)
+        if isinstance(e.slice, ast.Slice):
+            lo = ev(e.slice.lower) if e.slice.lower else None
+            hi = ev(e.slice.upper) if e.slice.upper else None
+            return seq[lo:hi]
+        return seq[ev(e.slice)]
+    if isinstance(e, (ast.ListComp, ast.GeneratorExp)) \
+            and len(e.generators) == 1 and isinstance(
+            e.generators[0].target, ast.Name):
+        g = e.generators[0]
+        out = []
+        for item in ev(g.iter):
+            env2 = dict(env)
+            env2[g.target.id] = item
+            if all(_chain_select(c, env2, func, depth + 1) for c in g.ifs):
+                out.append(_chain_select(e.elt, env2, func, depth + 1))
+        return out
+    if isinstance(e, ast.Call) and isinstance(e.func, ast.Attribute) \
+            and e.func.attr in ("split", "rsplit", "strip", "lstrip",
+                                "rstrip", "partition", "rpartition") \
+            and not e.keywords:
+        obj = ev(e.func.value)
+        args = [ev(a) for a in e.args]
+        if not isinstance(obj, str):
+            raise AnalysisError("version chain: method on a non-string")
+        return getattr(obj, e.func.attr)(*args)
+    if isinstance(e, ast.Call) and call_name(e) == "list" \
+            and len(e.args) == 1:
+        return list(ev(e.args[0]))
+    raise AnalysisError(f"version chain: `{short(e, 40)}` not recognised")
+
+
+def _version_chain(ctx, repo):
+    """`version_brand` appends the writing dclab version to the chain
+    "a | b | dclab x".  The defect predicates of the reader decide from the
+    entry of the *last* writer whether stored features can be trusted (and
+    from the first entry which software recorded): the entry they test is
+    evaluated on chains of every length up to 5."""
+    vb = repo.func(WR, "RTDCWriter.version_brand")
+    joins = [c for c in find_calls(vb, attr="join")
+             if isinstance(c.func.value, ast.Constant)]
+    adds = [c for c in walk(vb) if isinstance(c, ast.Call)
+            and last_attr(c) in ("append", "insert")]
+    if len(joins) != 1 or not adds:
+        raise AnalysisError("version_brand: chain construction lost")
+    sep = joins[0].func.value.value
+    at_end = all(last_attr(c) == "append" for c in adds)
+    n_ob = 0
+    for q, f in repo.all_functions(FD):
+        params = [a.arg for a in f.args.args]
+        for c in walk(f):
+            if not (isinstance(c, ast.Call) and last_attr(c) == "startswith"
+                    and isinstance(c.func, ast.Attribute)
+                    and isinstance(c.func.value, ast.Name)
+                    and c.args and const_str(c.args[0])):
+                continue
+            who = const_str(c.args[0])
+            # the full chain: local bound from get_software_version_from_h5
+            chain_vars = [n.targets[0].id for n in walk(f)
+                          if isinstance(n, ast.Assign)
+                          and isinstance(n.targets[0], ast.Name)
+                          and isinstance(n.value, ast.Call)
+                          and call_name(n.value)
+                          == "get_software_version_from_h5"]
+            if not chain_vars:
+                raise AnalysisError(f"{q}: version chain variable lost")
+            want_last = who.startswith("dclab")
+            bad = None
+            for length in range(1, 6):
+                entries = [f"sw{k} 1.{k}" for k in range(length)]
+                chain = sep.join(entries)
+                env = {v: chain for v in chain_vars}
+                env.update({p_: None for p_ in params})
+                got = _chain_select(c.func.value, env, f)
+                want = entries[-1] if (want_last == at_end) else entries[0]
+                if got != want:
+                    bad = (length, got, want)
+                    break
+            n_ob += 1
+            pos = "last" if want_last else "first"
+            ctx.ob("R1.5", bad is None,
+                   f"{q} tests '{who}' on the {pos} entry of the version "
+                   f"chain (chains of 1..5 entries)" if bad is None else
+                   f"{q} tests '{who}' on `{bad[1]}` for a chain of "
+                   f"{bad[0]} entries – the {pos} entry is `{bad[2]}` "
+                   f"(version_brand {'appends' if at_end else 'prepends'} "
+                   f"the writing version, separator {sep!r})",
+                   node=c, key=f"{FD}::{q}::'{who}' entry of the version "
+                               f"chain")
+    if n_ob < 3:
+        raise AnalysisError("feat_defect: fewer than 3 version tests found")
+
+
 def r15(ctx, repo):
     wcls = repo.cls(WR, "RTDCWriter")
     bases_w = {"self.h5file"}
@@ -1904,6 +2082,8 @@ def r15(ctx, repo):
         except (LookupError, TypeError):
             return f"?{name}"
     wc = {codec(c) for c in enc}
+    _log_reader_only_decodes(ctx, repo)
+    _version_chain(ctx, repo)
     for rel, q in ((LG, "H5Logs.__getitem__"),
                    (BS, "RTDC_HDF5.basin_get_dicts_from_h5file")):
         f = repo.func(rel, q)
@@ -1920,6 +2100,13 @@ def r15(ctx, repo):
 
 # ----------------------------------------------------------------------
 # R1.6
+
+class _Anything(dict):
+    """environment in which every unknown symbol is True (collection pass)"""
+
+    def __missing__(self, key):
+        return True
+
 
 def r16(ctx, repo):
     ex = repo.func(WR, "RTDCWriter.__exit__")
@@ -1958,19 +2145,49 @@ def r16(ctx, repo):
                 and "events" in txt(node):
             return "n"
         return None
+    # Everything in the guard that is not the size of the events group
+    # (session flags, modes, …) is an unknown that may be true or false:
+    # rectify_metadata has to run for a non-empty events group under every
+    # valuation.
     ok = True
+    culprit = None
     for g, on_true in guards:
-        for n in (1.0, 2.0, 1000.0):
-            try:
-                v = bool(eval_pred(g.test, {"n": n}, res))
-            except AnalysisError:
-                raise AnalysisError(f"__exit__: guard `{short(g.test, 40)}` "
-                                    f"of rectify_metadata not recognised")
-            if v != on_true:
-                ok = False
+        unknown = {}
+
+        def res2(node, unknown=unknown):
+            r_ = res(node)
+            if r_ is not None:
+                return r_
+            if isinstance(node, (ast.BoolOp, ast.Constant)) or (
+                    isinstance(node, ast.UnaryOp)
+                    and isinstance(node.op, ast.Not)):
+                return None
+            if isinstance(node, ast.Compare) and any(
+                    res(x) is not None for x in ast.walk(node)):
+                return None
+            return unknown.setdefault(txt(node), f"u{len(unknown)}")
+        # first pass collects the unknown atoms
+        try:
+            eval_pred(g.test, _Anything({"n": 1.0}), res2)
+        except AnalysisError:
+            raise AnalysisError(f"__exit__: guard `{short(g.test, 40)}` of "
+                                f"rectify_metadata not recognised")
+        syms = sorted(unknown.values())
+        for bits in range(2 ** len(syms)):
+            env = {sy: bool(bits >> k & 1) for k, sy in enumerate(syms)}
+            for n in (1.0, 2.0, 1000.0):
+                env["n"] = n
+                if bool(eval_pred(g.test, env, res2)) != on_true:
+                    ok = False
+                    off = [t_ for t_, sy in unknown.items()
+                           if not env[sy]] or list(unknown)
+                    culprit = culprit or (off[0] if off else None)
     ctx.ob("R1.6", ok, "rectify_metadata runs whenever the events group is "
-           "not empty" if ok else "rectify_metadata is skipped for some "
-           "non-empty events group", node=call,
+           "not empty" if ok else "rectify_metadata is skipped for a "
+           "non-empty events group"
+           + (f" when `{culprit}` is false: the derived metadata (event "
+              f"count …) must not depend on what this session stored"
+              if culprit else ""), node=call,
            label="rectify whenever events exist")
     # event count
     rm = wfunc(repo, WR, "RTDCWriter.rectify_metadata")
@@ -2643,8 +2860,8 @@ def run(ctx):
     ctx.rule("R1.4", "stored index = arange(n0+1, n0+n+1), n0 stored "
              "length, independent of caller values", minimum=5)
     ctx.rule("R1.5", "group / member names, mask scaling, integer tables "
-             "and text codec agree between writer, readers, copier",
-             minimum=20)
+             "text codec and version chain agree between writer, readers, "
+             "copier", minimum=24)
     ctx.rule("R1.6", "__exit__ closes on all paths, rectifies when events "
              "exist; event count is the length of a stored feature dataset",
              minimum=5)
@@ -3006,6 +3223,24 @@ MUTANTS = [
      _single_stepped_loop_short, "R1.2"),
     ("dict dispatch of the reader lost the mask wrapper", EV,
      _reader_dict_dispatch_without_mask, "R1.5"),
+    # round 3
+    ("volume defect test reads the second chain entry", FD,
+     ('last_version = software_version.split("|")[-1].strip()',
+      'last_version = software_version.split("|", 1)[-1].strip()', 1),
+     "R1.5"),
+    ("inert_ratio defect test reads the first chain entry", FD,
+     ("last_version = version_pipeline[-1]",
+      "last_version = version_pipeline[0]"), "R1.5"),
+    ("writer joins the version chain with another separator", WR,
+     ('new_version = " | ".join(version_chain)',
+      'new_version = " ; ".join(version_chain)'), "R1.5"),
+    ("rectify_metadata only when this session stored features", WR,
+     ('            if len(self.h5file["events"]):\n',
+      '            if self._group_sizes and len(self.h5file["events"]):\n'),
+     "R1.6"),
+    ("log lines stripped on read", LG,
+     ('log = [li.decode("utf") for li in log]',
+      'log = [li.decode("utf").rstrip() for li in log]'), "R1.5"),
     # round 2
     ("H5ScalarEvent memo loaded with the caller's dtype", EV,
      ("self._array = np.asarray(self.h5ds, *args, **kwargs)",
@@ -3110,6 +3345,16 @@ TWINS = [
      _single_stepped_loop),
     ("reader wrappers dispatched through a module-level dict", EV,
      _reader_dict_dispatch),
+    # round 3
+    ("last chain entry via rsplit", FD,
+     ('last_version = software_version.split("|")[-1].strip()',
+      'last_version = software_version.rsplit("|", 1)[-1].strip()', 1)),
+    ("rectify guard written as > 0", WR,
+     ('            if len(self.h5file["events"]):\n',
+      '            if len(self.h5file["events"]) > 0:\n')),
+    ("log lines decoded by a generator", LG,
+     ('log = [li.decode("utf") for li in log]',
+      'log = list(li.decode("utf") for li in log)')),
 ]
 
 # mutants that re-introduce the repaired defects (apply to the fixed tree)
